@@ -230,7 +230,7 @@ def nontrivial(case, model):
 def known(case, impl, model, spec, mode):
     # F-C01a (C01's finding): MemoryFieldArray.write_part(empty array) on a non-empty array raises ValueError;
     # reached here when a batch after the first produces no bytes although bytes were written before.
-    if case.get('kind', 'mm') == 'mm' and impl == 'EXC:ValueError' and not isinstance(model, str):
+    if case.get('kind', 'mm')[1] == 'm' and impl == 'EXC:ValueError' and not isinstance(model, str):
         if 'zero-byte-batch-after-data' in features(case, model):
             return 'F-C01a'
     return None
